@@ -163,7 +163,7 @@ def compile_errors(workdir, flavour="gcc-O0"):
 
 
 def run_driver(workdir, exe, lines, timeout=1200):
-    env = dict(os.environ, UBSAN_OPTIONS="print_stacktrace=0:halt_on_error=1")
+    env = dict(os.environ, UBSAN_OPTIONS="print_stacktrace=0:halt_on_error=0")
     p = subprocess.run([os.path.join(workdir, exe)], input="\n".join(lines) + "\n", cwd=workdir, stdout=subprocess.PIPE,
                        stderr=subprocess.PIPE, text=True, timeout=timeout, env=env)
     return p.stdout.splitlines()
